@@ -192,4 +192,40 @@ package authboss
 //@   property C09
 //@   ensures hidden_means_anonymous: (ctxuser(deref(r)) == nil && ctxpid(deref(r)) == nil && !sess_has(deref(r), SessionKey)) ==>
 //@       (result.0 == nil && result.1 == ErrUserNotFound && !emits Store.Load(_))
+//@
+//@ -- The event bus (C01 C02 C03 C04 C06 C16 C18 rely on it through the Fire summary: an error
+//@ -- stops the chain and means "not handled"; handlers get the request's writer and request).
+//@ func (*Events).call
+//@   property C01 C02 C03 C04 C06 C16 C18
+//@   option summary FireBefore / FireAfter use this contract
+//@   invariant loop#1 index_in_range: rangeindex >= -1 && rangeindex < len(evs)
+//@   invariant loop#1 errors_end_the_loop: each CallFuncValue(_, _, _, _) -> (_, ?e) => e == nil
+//@   invariant loop#1 handled_sticks: each CallFuncValue(_, _, _, ?hd) -> (?h, ?e) => (e == nil ==> ((hd || h) ==> handled))
+//@   ensures error_means_unhandled: result.1 != nil ==> result.0 == false
+//@   ensures error_stops_chain: each CallFuncValue(_, _, _, _) -> (_, ?e) => e != nil ==> (result.1 == e && !(after CallFuncValue(_, _, _, _)))
+//@   ensures same_writer_and_request: each CallFuncValue(_, ?w2, ?r2, _) => w2 == w && r2 == r
+//@   ensures no_panic: !panics
+//@
+//@ func (*Events).FireBefore
+//@   property C01 C02 C03 C04 C06 C16 C18
+//@   ensures before_list: (emits Call.call(_, ?evs, ?w2, ?r2) -> (?h, ?e2) :: evs == mapget(c.before, e) && w2 == w && r2 == r && result.0 == h && result.1 == e2) &&
+//@       (result.1 != nil ==> result.0 == false)
+//@
+//@ func (*Events).FireAfter
+//@   property C01 C02 C03 C04 C06 C16 C18
+//@   ensures after_list: (emits Call.call(_, ?evs, ?w2, ?r2) -> (?h, ?e2) :: evs == mapget(c.after, e) && w2 == w && r2 == r && result.0 == h && result.1 == e2) &&
+//@       (result.1 != nil ==> result.0 == false)
+//@
+//@ func (*Events).Before
+//@   property C02 C03 C16
+//@   -- registration appends the handler to the before-list of exactly that event
+//@   ensures registers_before: (emits MapWrite(?m, ?k, ?v) :: m == c.before && k == e && len(v) == len(mapget(c.before, e)) + 1 &&
+//@       elem(v, len(v) - 1) == f && (forall i int :: (0 <= i && i < len(v) - 1) ==> elem(v, i) == elem(mapget(c.before, e), i))) &&
+//@       (each MapWrite(?m2, _, _) => m2 == c.before)
+//@
+//@ func (*Events).After
+//@   property C04 C06 C16
+//@   ensures registers_after: (emits MapWrite(?m, ?k, ?v) :: m == c.after && k == e && len(v) == len(mapget(c.after, e)) + 1 &&
+//@       elem(v, len(v) - 1) == f && (forall i int :: (0 <= i && i < len(v) - 1) ==> elem(v, i) == elem(mapget(c.after, e), i))) &&
+//@       (each MapWrite(?m2, _, _) => m2 == c.after)
 
